@@ -247,6 +247,13 @@ class OriginDomain:
             return None
         if getattr(recv, "kind", None) == "style":
             return None
+        if name == "update" and isinstance(recv, Const) and isinstance(recv.value, dict) and len(args) == 1 and isinstance(args[0], Const) \
+                and isinstance(args[0].value, dict) and not kwargs:
+            # d.update({..}) on a dictionary built here: the entries are merged (computed keys share the entry "*")
+            merged = dict(recv.value)
+            for k, v in args[0].value.items():
+                merged[k] = self.join(merged[k], v, node) if (k == "*" and k in merged) else v
+            return Const(merged)
         held = set()
         for v in list(args) + list(kwargs.values()):
             if isinstance(v, Const) and isinstance(v.value, dict):
